@@ -64,7 +64,7 @@ func c12Keys(thorough bool) []keyForm {
 		if sp.at == events.ArrayTypeResourceID {
 			cls = "rid:"
 		}
-		for _, txt := range []string{"", "a", "b", "é", "ab"} {
+		for _, txt := range []string{"", "a", "b", "é", "ab", "éΩ", "ΩΩ"} {
 			b := []byte(txt)
 			out = append(out, keyForm{"arr", cls + txt, []ev.E{ev.EArr(sp.at, uint64(len(b)), b)}, false})
 			out = append(out, keyForm{"sarr", cls + txt, []ev.E{ev.ESArr(sp.at, txt)}, false})
